@@ -38,6 +38,11 @@ def run(ck, F, E):
                 e = br.rv_expr(rv)
                 if e[0] == "agg" and e[2] == "Some" and "as_numbered" in show(e[3][0]) and "location" in show(e[3][0]):
                     ok_some = True
+                # `self.breakpoint = self.location.as_numbered()` stores the same Option directly
+                from lib import expr_has_field
+                se = strip_expr(e)
+                if se[0] == "call" and se[1].endswith("ProgramLocation::as_numbered") and expr_has_field(se[2][0], "location"):
+                    ok_some = ok_none = True
                 if e[0] == "agg" and e[2] == "None":
                     ok_none = True
         ck.require(ok_some, "C07:CAPTURE:break-stores-location", "capture/restore", "breakpoint = Some(location.as_numbered())",
